@@ -14,6 +14,7 @@ def run(ctx, L, tier):
     X.f2_cxx_zero_vector(ctx, L)
     X.f2_cxx_skip_only(ctx, L)
     X.f5b_encoder(ctx, L)
+    X.optional_codec_cxx(ctx, L)
     generated_padding_skip_only(ctx, L)
     return sorted(set(o.rule for o in L.obligations))
 
